@@ -14,6 +14,7 @@ void h_alloc_arm(long fail_at, int track_sites);
 long h_alloc_count(void);
 void h_execlog_reset(void);
 extern int h_exec_status;
+extern const char *h_exec_output;
 char *h_execlog_take(void);
 const char *h_dns_last_qname(void);
 int h_dns_last_qtype(void);
